@@ -6,6 +6,7 @@ package twins
 
 import (
 	"bytes"
+	"encoding/binary"
 	"fmt"
 	"hash/fnv"
 	"io"
@@ -19,8 +20,11 @@ import (
 	"github.com/EliCDavis/polyform/formats/splat"
 	"github.com/EliCDavis/polyform/formats/stl"
 	"github.com/EliCDavis/polyform/math/geometry"
+	"github.com/EliCDavis/polyform/math/mat"
+	"github.com/EliCDavis/polyform/math/quaternion"
 	"github.com/EliCDavis/polyform/math/sample"
 	"github.com/EliCDavis/polyform/math/sdf"
+	"github.com/EliCDavis/polyform/math/trs"
 	"github.com/EliCDavis/polyform/modeling"
 	"github.com/EliCDavis/polyform/modeling/marching"
 	"github.com/EliCDavis/polyform/modeling/primitives"
@@ -53,6 +57,8 @@ func init() {
 	reg("C09T", func() []ctwin.Family { return []ctwin.Family{marchFamily()} })
 	reg("C02T", meshopsFamilies)
 	reg("C03T", meshopsFamilies)
+	reg("C08T", func() []ctwin.Family { return []ctwin.Family{foreignPlyFamily()} })
+	reg("C17T", func() []ctwin.Family { return []ctwin.Family{transformFamily()} })
 	reg("C16T", c16Families)
 	reg("C19T", func() []ctwin.Family { return []ctwin.Family{sdfFamily()} })
 	reg("C20T", func() []ctwin.Family { return []ctwin.Family{triangulationFamily()} })
@@ -262,6 +268,96 @@ func splatFamily() ctwin.Family {
 			if err == nil {
 				h.u64(meshlib.QuickHash(back))
 			}
+			return h.h
+		}})
+	}
+	return f
+}
+
+// ---- C08: files written by other tools, read by two goroutines ---------------------------------
+
+func foreignPlyFamily() ctwin.Family {
+	ascii := func(n int, k float64) []byte {
+		var b bytes.Buffer
+		fmt.Fprintf(&b, "ply\nformat ascii 1.0\ncomment twin %v\nelement vertex %d\nproperty double x\nproperty double y\nproperty double z\nproperty uchar red\nproperty uchar green\nproperty uchar blue\nproperty float quality\nelement face %d\nproperty list uchar int vertex_indices\nend_header\n", k, n, n-2)
+		for i := 0; i < n; i++ {
+			fmt.Fprintf(&b, "%v %v %v %d %d %d %v\n", k+float64(i)*1.25, k*0.5-float64(i*i), 0.1*float64(i), (i*40)%256, (i*70+3)%256, (i*90+7)%256, 0.5+float64(i))
+		}
+		for f := 0; f < n-2; f++ {
+			fmt.Fprintf(&b, "3 %d %d %d\n", f, f+1, f+2)
+		}
+		return b.Bytes()
+	}
+	binaryLE := func(n int, k float64) []byte {
+		var b bytes.Buffer
+		fmt.Fprintf(&b, "ply\nformat binary_little_endian 1.0\nelement vertex %d\nproperty float x\nproperty float y\nproperty float z\nproperty float nx\nproperty float ny\nproperty float nz\nelement face %d\nproperty list uchar uint vertex_indices\nend_header\n", n, n-2)
+		for i := 0; i < n; i++ {
+			for _, v := range []float32{float32(k) + float32(i), float32(i * i), -float32(i), 0, 1, 0} {
+				binary.Write(&b, binary.LittleEndian, v)
+			}
+		}
+		for f := 0; f < n-2; f++ {
+			b.WriteByte(3)
+			for _, v := range []uint32{uint32(f + 2), uint32(f), uint32(f + 1)} {
+				binary.Write(&b, binary.LittleEndian, v)
+			}
+		}
+		return b.Bytes()
+	}
+	f := ctwin.Family{Name: "ply.ReadMesh(files of other tools)", Site: "ply.ReadMesh"}
+	for i, data := range [][]byte{ascii(9, 1), ascii(4, -7.5), binaryLE(8, 2), binaryLE(5, 30)} {
+		data := data
+		f.Thunks = append(f.Thunks, ctwin.Thunk{Name: fmt.Sprintf("file %d (%d bytes)", i, len(data)), Run: func() uint64 {
+			h := newHasher()
+			d, err := meshDigest(ply.ReadMesh(bytes.NewReader(data)))
+			h.u64(d)
+			h.err(err)
+			return h.h
+		}})
+	}
+	return f
+}
+
+// ---- C17: the transform types in two goroutines -------------------------------------------------
+
+func transformFamily() ctwin.Family {
+	f := ctwin.Family{Name: "transforms", Site: "math/trs, math/mat, math/quaternion, math/geometry"}
+	for k, n := range []int{40, 7, 19} {
+		k, n := k, n
+		pts := make([]vector3.Float64, n)
+		for i := range pts {
+			pts[i] = v3(float64(i)+0.5*float64(k), float64(i*i)-3, 0.25*float64(i))
+		}
+		T := trs.New(v3(1+float64(k), -2, 3), quaternion.FromTheta(0.7+float64(k), v3(1, 2, -3)), v3(2, 0.5+float64(k), 1.5))
+		f.Thunks = append(f.Thunks, ctwin.Thunk{Name: fmt.Sprintf("TRS %d: TransformArray/InPlace/Mesh.ApplyTRS on %d points, matrix inverse, boxes", k, n), Run: func() uint64 {
+			h := newHasher()
+			for _, p := range T.TransformArray(pts) {
+				h.v3(p)
+			}
+			cp := append([]vector3.Float64{}, pts...)
+			T.TransformInPlace(cp)
+			for _, p := range cp {
+				h.v3(p)
+			}
+			idx := make([]int, n)
+			for i := range idx {
+				idx[i] = i
+			}
+			m := modeling.NewMesh(modeling.PointTopology, idx).SetFloat3Attribute(modeling.PositionAttribute, append([]vector3.Float64{}, pts...))
+			h.u64(meshlib.QuickHash(m.ApplyTRS(T).Rotate(T.Rotation()).Translate(T.Position()).Scale(T.Scale())))
+			M := mat.Matrix4x4{X00: 2 + float64(k), X11: 0.5, X22: 1.5, X33: 1, X03: 1, X13: -2, X23: 3, X01: 0.25}
+			inv := M.Inverse().Multiply(M).Add(M)
+			for _, x := range []float64{inv.X00, inv.X01, inv.X03, inv.X11, inv.X22, inv.X33, M.Determinant()} {
+				h.f64(x)
+			}
+			h.v3(M.MulPosition(pts[0]))
+			box := geometry.NewAABBFromPoints(pts...)
+			box.EncapsulatePoint(v3(-5, float64(k), 9))
+			h.v3(box.Min())
+			h.v3(box.Max())
+			h.v3(box.ClosestPoint(v3(100, -100, 0.5)))
+			q := quaternion.RotationTo(v3(1, 0, 0), v3(0, 1, float64(k)).Normalized())
+			h.v3(q.Rotate(pts[n-1]))
 			return h.h
 		}})
 	}
